@@ -583,6 +583,14 @@ class Interp:
         if k in ("CallExpr", "CXXMemberCallExpr"):
             nm = tbf.callee_name(n)
             args = [self.eval(a, env) for a in tbf.call_args(n)]
+            if nm == "fill" and len(args) == 1 and kids(n) and strip(kids(n)[0]).get("k") in ("MemberExpr", "CXXDependentScopeMemberExpr") and kids(strip(kids(n)[0])):
+                # std::array::fill on a local array: every element takes the value
+                cont, key = self.lval(kids(strip(kids(n)[0]))[0], env)
+                arr = cont.get(key) if isinstance(cont, dict) else cont[key]
+                if isinstance(arr, list):
+                    for i in range(len(arr)):
+                        arr[i] = args[0]
+                    return None
             if nm in self.opaque:
                 tag = "%s#%d" % (nm, len(self.opaque_calls))
                 self.opaque_calls.append((nm, tag, args))
